@@ -102,3 +102,29 @@ Example C01_nonvacuous :
   | Err _ => False
   end.
 Proof. cbn. split; [intros i Hi; inversion Hi; cbn; auto with arith | repeat split]. Qed.
+
+(* ---------- "raises AnnotationError instead of answering" ---------- *)
+From JT Require Import proofs.SymFacts.
+
+(* at one axis: AnnotationError iff evaluation reaches the axis (it is not excused by `#` and size 1) and its expression
+   mentions an unbound name -- or a `?` axis is used outside a structured PyTree *)
+Theorem C01_annotation_error_iff : forall lbl st args d z sm,
+  dim_step lbl st args d z sm = SRaise AnnotationErr <->
+  match d with
+  | DSym src bc => bc && (z =? 1)%Z = false /\ exists e, aget st src = Some e /\ eval_sym sm args e = ENameErr
+  | DNamed n bc tp => bc && (z =? 1)%Z = false /\ dkey lbl n tp = None
+  | _ => False
+  end.
+Proof. exact dim_step_annotation_error. Qed.
+Print Assumptions C01_annotation_error_iff.
+
+Theorem C01_name_error_names_an_unbound_name : forall sm args e, eval_sym sm args e = ENameErr ->
+  (exists n, In n (vars e) /\ aget sm n = None) \/ (exists n, In n (argrefs e) /\ aget args n = None).
+Proof. exact nameerr_has_unbound_name. Qed.
+Print Assumptions C01_name_error_names_an_unbound_name.
+
+Theorem C01_bound_names_never_raise_name_error : forall sm args e,
+  (forall n, In n (vars e) -> aget sm n <> None) -> (forall n, In n (argrefs e) -> aget args n <> None) ->
+  eval_sym sm args e <> ENameErr.
+Proof. exact bound_names_no_nameerr. Qed.
+Print Assumptions C01_bound_names_never_raise_name_error.
